@@ -4,3 +4,4 @@ pub mod selection;
 pub mod stallguard;
 pub mod weakfilter;
 pub mod registration;
+pub mod linkcc;
